@@ -277,6 +277,14 @@ def pos_only_source(ctx, cfg, fs, rule='P.precedence'):
     if len(nx) < 2 or len(cc) != 1:
         raise Broken('check_complete: expected two next() calls on the reversed items and one Complete::complete call')
     cur, prev = nx[0], nx[1]
+    def is_cur(r):
+        # the word being completed: the result of the first next(), also when it went through `?` (Try::branch) first
+        if r.kind != 'call': return False
+        if r.call.bb == cur.bb: return True
+        if r.call.is_(r'Try>::branch$'):
+            qs = provenance(b, r.call.args[0], r.call.bb, 'term', through=None)
+            return bool(qs) and all(q.kind == 'call' and q.call.bb == cur.bb for q in qs)
+        return False
     why = []
     truth = []
     for r in provenance(b, cc[0].args[2], cc[0].bb, 'term', through=None):
@@ -303,7 +311,7 @@ def pos_only_source(ctx, cfg, fs, rule='P.precedence'):
             rs = sw.roots if sw.kind != 'enum' else provenance(b, sw.place, sw.discr_site[0], sw.discr_site[1], through=None)
             if sw.kind == 'bool' and b.dominates(cur.bb, a) and not (rs and all(r.kind == 'call' and r.call.bb == prev.bb for r in rs)):
                 why.append('a boolean test at %s takes part in the decision' % b.where(a))
-            if sw.kind == 'enum' and sw.enum == 'arg::Arg' and rs and all(r.kind == 'call' and r.call.bb == cur.bb for r in rs):
+            if sw.kind == 'enum' and sw.enum == 'arg::Arg' and rs and all(is_cur(r) for r in rs):
                 why.append('the kind of the word being completed takes part in the decision (%s)' % b.where(a))
     ctx.ob(rule, 'check_complete:positional-only-from-preceding-item', bool(truth) and not why,
            'the positional-only flag handed to Complete::complete is true exactly under "the preceding item is a PosWord" (%d value site(s)): %s' % (len(truth), '; '.join(sorted(set(why))) or 'ok'), where=cc[0].where(), cfg=cfg)
